@@ -22,6 +22,8 @@ pub struct ModCfg {
     pub marker_base: u32,
     /// prefix of all generated names (to make two modules disjoint)
     pub prefix: String,
+    /// also generate names of the form X.MERGE next to X (pre-existing merge names)
+    pub merge_names: bool,
 }
 
 impl Default for ModCfg {
@@ -34,6 +36,7 @@ impl Default for ModCfg {
             full: true,
             marker_base: 1,
             prefix: String::new(),
+            merge_names: false,
         }
     }
 }
@@ -46,6 +49,7 @@ pub struct Gen<'r> {
 
 thread_local! {
     static NAME_PREFIX: std::cell::RefCell<String> = const { std::cell::RefCell::new(String::new()) };
+    static MERGE_NAMES: std::cell::Cell<bool> = const { std::cell::Cell::new(false) };
 }
 
 fn pick_names(rng: &mut Rng, prefix: &str, universe: usize, n: usize) -> Vec<String> {
@@ -54,7 +58,18 @@ fn pick_names(rng: &mut Rng, prefix: &str, universe: usize, n: usize) -> Vec<Str
     let mut idx: Vec<usize> = (0..universe).collect();
     rng.shuffle(&mut idx);
     idx.truncate(n.min(universe));
-    idx.iter().map(|i| format!("{prefix}_{i}")).collect()
+    let mut names: Vec<String> = idx.iter().map(|i| format!("{prefix}_{i}")).collect();
+    if MERGE_NAMES.with(|m| m.get()) {
+        // some names get a sibling X.MERGE (and X.MERGE2)
+        let mut extra: Vec<String> = Vec::new();
+        for n in &names {
+            if rng.chance(1, 5) {
+                extra.push(if rng.chance(1, 4) { format!("{n}.MERGE2") } else { format!("{n}.MERGE") });
+            }
+        }
+        names.extend(extra);
+    }
+    names
 }
 
 impl<'r> Gen<'r> {
@@ -110,6 +125,7 @@ impl<'r> Gen<'r> {
     pub fn module(&mut self, module_name: &str) -> Module {
         let mut m = Module::new(module_name.to_string(), String::new());
         NAME_PREFIX.with(|p| *p.borrow_mut() = self.cfg.prefix.clone());
+        MERGE_NAMES.with(|m| m.set(self.cfg.merge_names));
         let sz = self.cfg.size;
         let uni = self.cfg.universe;
         let n = |g: &mut Gen, base: usize| -> usize { g.rng.urange(base.min(1), base.max(1)) };
